@@ -439,11 +439,48 @@ def xpath_num_literal(v):
     return ("-" if v < 0 else "") + s
 
 
+SORTKEYS = [
+    ("path", None, [], [("attribute", ("name", None, "x"), [])]),
+    ("path", None, [], [("self", "node", [])]),
+    ("fn", "count", [("path", None, [], [("child", "node", [])])]),
+    ("fn", "string-length", [("path", None, [], [("self", "node", [])])]),
+    ("neg", ("fn", "position", [])),
+    ("fn", "sum", [("path", None, [], [("attribute", ("name", None, None), [])])]),
+    ("mult", ("path", None, [], [("attribute", ("name", None, "x"), [])]), ("num", "2")),
+    ("fn", "number", [("path", None, [], [("child", "text", [])])]),
+    ("fn", "round", [("path", None, [], [("attribute", ("name", None, "y"), [])])]),
+    ("union", [("path", None, [], [("attribute", ("name", None, "y"), [])]), ("path", None, [], [("attribute", ("name", None, "x"), [])])]),
+    ("group", ("path", None, [], [("child", ("name", None, None), []), ("attribute", ("name", None, "x"), [])])),
+    ("minus", ("fn", "last", []), ("fn", "position", [])),
+    ("fn", "boolean", [("path", None, [], [("attribute", ("name", None, "y"), [])])]),
+    ("lit", "3"), ("num", "007"), ("var", "n1"),
+]
+
+
+def gen_sort_doc(r):
+    """a document element with several element children carrying different numeric material"""
+    kids = []
+    for _ in range(r.randrange(3, 7)):
+        attrs = []
+        if r.random() < 0.8:
+            attrs.append(("x", r.choice(["1", "2", "3", "10", "-1", "1.5", "007", " 2 ", "a", ""])))
+        if r.random() < 0.5:
+            attrs.append(("y", r.choice(["0.5", "2.5", "-0.5", "4", "b"])))
+        ch = []
+        if r.random() < 0.7:
+            ch.append(("t", r.choice(["5", "1", "12", "0", "-3", "x", "2.25"])))
+        for _ in range(r.randrange(0, 3)):
+            ch.append(("e", "c", [("x", r.choice(["7", "1", "0"]))] if r.random() < 0.6 else [], []))
+        kids.append(("e", r.choice(["a", "b"]), attrs, ch))
+    return [("e", "r", [("xmlns:p", "urn:p")], kids)]
+
+
 def gen_sheet_cases(ctx, n_docs, per_doc):
     r = ctx.rng
     out, k = [], 0
     for di in range(n_docs):
-        top = xpgen.gen_doc(r, "small")
+        sortdoc = di % 2 == 1
+        top = gen_sort_doc(r) if sortdoc else xpgen.gen_doc(r, "small")
         # value-of output and attribute values must survive XML serialisation: keep the document ASCII-clean
         nodes = xpgen.build_nodes(top)
         dtoks = xpgen.doc_tokens(top)
@@ -454,6 +491,10 @@ def gen_sheet_cases(ctx, n_docs, per_doc):
         g = xpgen.ExprGen(r, depth=2, variables=variables)
         todo = top_level_exprs(g, r, 1)
         r.shuffle(todo)
+        if sortdoc:
+            keys = [("sortkey", e) for e in SORTKEYS]
+            r.shuffle(keys)
+            todo = keys[:per_doc // 2] + todo
         kids = [c.id for c in nodes[0].children if c.kind == "elem"]
         docel = kids[0]
         items = [c.id for c in nodes[docel].children if c.kind == "elem"]
